@@ -330,7 +330,19 @@ func TestVerifC04Quic(t *testing.T) {
 				}
 			}
 			var ds, dc c04qu
-			c04qWait(4*time.Second, func() bool {
+			c04qWait(8*time.Second, func() bool {
+				// a connection the listener's Accept handed to the harness is the harness's to
+				// close (under load the server side can be delivered although the dial failed,
+				// e.g. when the client's rejection arrives after the server accepted)
+				for drained := false; !drained; {
+					select {
+					case c := <-accepted:
+						c.Close()
+						out.Cover("quic.late_delivered_conn_closed_by_harness")
+					default:
+						drained = true
+					}
+				}
 				us, uc := c04qUsage(srm), c04qUsage(crm)
 				ds = c04qu{us.conns - bs.conns, us.fd - bs.fd, us.mem - bs.mem}
 				dc = c04qu{uc.conns - bc.conns, uc.fd - bc.fd, uc.mem - bc.mem}
